@@ -13,10 +13,12 @@ EXTENDS WalletSend, TLC
 VARIABLES p, s, hist
 vars == <<p, s, hist>>
 
-Params   == ndJsonDeserialize("params.ndjson")[1]     \* {"seeds":[hex32,..],"wcs":[0,-1,..],"maxpolls":6,"rawmaxpolls":6,"rawseqs":["0",..],"lowermode":"full"|"sparse","rot":0}
+Params   == ndJsonDeserialize("params.ndjson")[1]     \* {"seeds":[key,..],"nrot":2,"wcs":[0,-1,..],"maxpolls":6,"rawmaxpolls":6,"rawseqs":["0",..],"lowermode":"full"|"sparse","rot":0}
 MaxPolls == Params.maxpolls
 RawMaxPolls == Params.rawmaxpolls                       \* bound for the entry points that take seqno / init from the caller
-Seeds    == Params.seeds
+Seeds    == Params.seeds                                 \* keys: "seed" (32 bytes hex), or "seed:pub" = a private key whose public half is
+                                                          \* the given 32 bytes (ed25519.PrivateKey is seed || public key; patterns such as all-ff)
+NRot     == Params.nrot                                  \* the first NRot keys rotate over the (version, entry) pairs; entry "Send" runs with every key
 Wcs      == Params.wcs
 RawSeqs  == {Params.rawseqs[i] : i \in 1..Len(Params.rawseqs)}   \* seqnos a caller passes to RawSend(V2) (subset of SeqSet)
 Rot      == Params.rot                                   \* rotates which key / workchain a (version, entry) pair gets
@@ -29,8 +31,9 @@ Entries  == <<[e |-> "SendV2", c |-> TRUE], [e |-> "SendV2", c |-> FALSE], [e |-
               [e |-> "RawSendV2", c |-> TRUE], [e |-> "RawSendV2", c |-> FALSE], [e |-> "RawSend", c |-> FALSE]>>
 ParamSpace ==
   UNION {UNION {{[ver |-> v, entry |-> Entries[i].e, confirm |-> Entries[i].c, rawseq |-> rs, rawinit |-> ri,
-                  wc |-> Wcs[((VerIdx(v) + i + Rot) % Len(Wcs)) + 1], seed |-> Seeds[((VerIdx(v) + 2 * i + Rot) % Len(Seeds)) + 1]]
-                 : rs \in (IF Entries[i].e \in RawEntries THEN RawSeqs ELSE {""}),
+                  wc |-> Wcs[((VerIdx(v) + i + Rot) % Len(Wcs)) + 1], seed |-> sd]
+                 : sd \in (IF Entries[i].e = "Send" THEN {Seeds[k] : k \in 1..Len(Seeds)} ELSE {Seeds[((VerIdx(v) + 2 * i + Rot) % NRot) + 1]}),
+                   rs \in (IF Entries[i].e \in RawEntries THEN RawSeqs ELSE {""}),
                    ri \in (IF Entries[i].e \in RawEntries THEN BOOLEAN ELSE {FALSE})}
                 : i \in 1..Len(Entries)} : v \in SendVersions}
 
@@ -85,7 +88,7 @@ Spec == Init /\ [][Next]_vars
 Sel(kind)  == SelectSeq(hist, LAMBDA e : e.k = kind)
 SentOK     == \E i \in 1..Len(hist) : hist[i].k = "Send" /\ hist[i].r = "ok"
 \* public keys of the seeds, derived once (Prim!EdPubFromSeed = RFC 8032 key generation by the JDK-independent reference code)
-PubTab     == FoldLeft(LAMBDA acc, sd : Append(acc, BytesToBits(EdPubFromSeed(HexToBytes(sd)))), <<>>, Seeds)
+PubTab     == FoldLeft(LAMBDA acc, sd : Append(acc, KeyPub(sd)), <<>>, Seeds)
 PubBits    == PubTab[CHOOSE i \in 1..Len(Seeds) : Seeds[i] = p.seed]
 SubB       == DefaultSubBits(p.ver, p.wc)
 NetB       == S(MainnetId, 32)
